@@ -16,7 +16,7 @@ import (
 )
 
 var c09Msgs = []string{"send-restart", "send-norestart", "create-account", "split", "move", "move-denoms", "sig-create-valid-key", "sig-create-other-key", "sig-create-malformed"}
-var c09Targets = []string{"absent", "base-nokey", "base-withkey", "continuous-vesting", "delayed-vesting", "module-materialised", "module-unmaterialised", "signer-itself"}
+var c09Targets = []string{"absent", "base-nokey", "base-withkey", "base-empty", "continuous-vesting", "delayed-vesting", "module-materialised", "module-unmaterialised", "signer-itself"}
 var c09Signers = []string{"proper", "stranger"}
 
 func c09Combos() int { return len(c09Msgs) * len(c09Targets) * len(c09Signers) }
@@ -83,6 +83,8 @@ func runC09(c *fw.Case) {
 		target, targetKey = k.Bech(), &k
 	case "base-nokey":
 		target, targetKey = e.baseNoKey.Bech(), &e.baseNoKey
+	case "base-empty":
+		target, targetKey = e.baseEmpty.Bech(), &e.baseEmpty
 	case "base-withkey":
 		target, targetKey = e.baseWithKey.Bech(), &e.baseWithKey
 	case "continuous-vesting":
